@@ -457,6 +457,18 @@ def gen_bus_history(rng, nops=None, cfg=None):
         op = tuple(int(x) if isinstance(x, bool) else x for x in op)
         ops.append(op)
         run.apply(op)
+    # half of the histories end as a buildable system: at least one master, and slaves on existing regions
+    if rng.random() < 0.5:
+        extra = []
+        if not run.bus.masters:
+            extra.append(("M", 1))
+        free = [n for n in run.bus.regions if n not in run.bus.slaves]
+        rng.shuffle(free)
+        for n in free[:rng.randint(1, 3)]:
+            extra.append(("S", int(n[1:])))
+        for op in extra:
+            ops.append(op)
+            run.apply(op)
     return aw, dw, ops, run
 
 
@@ -476,6 +488,9 @@ def run_bus_history(aw, dw, ops, known=(), rng=None, with_oracles=True):
     alarm = None
     nontrivial = 0
     for k, op in enumerate(ops):
+        rq = op_request(op)
+        taken = rq is not None and ("r%d" % rq[0] in run.bus.regions or "r%d" % rq[0] in run.bus.io_regions)
+        taken_ms = (op[0] == "M" and "r%d" % op[1] in run.bus.masters) or (op[0] == "S" and "r%d" % op[1] in run.bus.slaves)
         v = run.apply(tuple(op))
         if v == "ok":
             nontrivial += 1
@@ -483,7 +498,8 @@ def run_bus_history(aw, dw, ops, known=(), rng=None, with_oracles=True):
             alarm = "op %d %r raised %s" % (k, list(op), v)
         if with_oracles and alarm is None and v == "ok":
             msg = regions_oracle(run.bus)
-            rq = op_request(op)
+            if msg is None and (taken or taken_ms):
+                msg = "name r%d was already granted and has been granted again" % op[1]
             if msg is None and rq is not None and not rq[1] and rq[2] is None:
                 msg = alloc_oracle(run.bus, aw, "r%d" % rq[0], rq[3], rq[4], known)
             if msg:
@@ -720,12 +736,15 @@ def run_loc_history(kind, params, ops):
     nontrivial = 0
     if run.h is not None:
         for k, op in enumerate(ops):
+            before = dict(run.h.locs)
             v = run.apply(tuple(op))
             nontrivial += v == "ok"
             if v.startswith("crash") and alarm is None:
                 alarm = "op %d %r raised %s" % (k, op, v)
             if alarm is None:
                 msg = loc_oracle(run.h)
+                if msg is None and any(run.h.locs.get(n) != x for n, x in before.items()):
+                    msg = "a granted location was changed or withdrawn: %r -> %r" % (before, run.h.locs)
                 if msg:
                     alarm = "after op %d %r: %s" % (k, list(op), msg)
     return {"result": run.result_str(), "alarm": alarm, "nontrivial": nontrivial}
